@@ -136,6 +136,9 @@ static void ProcessSingle(char const* pFileName) {
         else if (
                 (Header == FileHeaderDataRec) || (Header == FileHeaderRDataRec)
                 || (Header == FileHeaderRelocRec) || (Header == FileHeaderRRelocRec)) {
+            if (Gran == 0) {
+                FormatError(pFileName, getmessage(Num_FormatInvRecordHeaderMsg));
+            }
             errno   = 0;
             FoundId = FindFamilyById(CPU);
             if (!FoundId) {
